@@ -1572,6 +1572,12 @@ def sym_base_objects(vc):
         ch = f.attrs['chain']
         items = list(ch) if isinstance(ch, tuple) else getattr(ch, 'items', None)
         check(it, 'flow-keeps-all-links-in-the-order-given', items is not None and len(items) == 2 and items[0] is l1 and items[1] is l2)
+        # a list is DATA, also when it is empty and also when it is the only link (never a list of steps to be spliced)
+        for label, data in (('empty', PyList([])), ('rows', PyList([PyDict({'a': 1})]))):
+            fd = it.call(F, [data])
+            chd = fd.attrs['chain']
+            itemsd = list(chd) if isinstance(chd, tuple) else getattr(chd, 'items', None)
+            check(it, 'a-single-list-link-is-kept-as-one-data-link[%s]' % label, itemsd is not None and len(itemsd) == 1 and itemsd[0] is data)
         f0 = it.call(F, [])
         ch0 = f0.attrs['chain']
         check(it, 'empty-flow-has-an-empty-chain', (isinstance(ch0, tuple) and not ch0) or (isinstance(ch0, PyList) and not ch0.items))
